@@ -65,7 +65,7 @@ Family(c) ==
     \cup (IF c.t = "string"
           THEN {MkSet("allowed_values", A) :
                    A \in {{}, {1}, {2, 3}, {1, 2, 3, 4}, {1, 2, 3, 4, 5}, NNVals(c), NNVals(c) \ {SMax(NNVals(c) \cup {1})}}}
-               \cup {MkSet("rex", R) : R \in {{1}, {2}, {3}, {2, 4}, {1, 3}, {5}}}
+               \cup {MkSet("rex", R) : R \in {{}, {1}, {2}, {3}, {2, 4}, {1, 3}, {5}}}       \* (an empty list is a list no value matches, not a null)
           ELSE {MkSet("allowed_values", {1, 2}), MkSet("rex", {5})})
     \cup {MkNull(k) : k \in {"type", "min", "max", "min_length", "max_length", "sign", "max_nulls",
                              "no_duplicates", "allowed_values", "rex"}}
